@@ -503,6 +503,7 @@ def main():
     ap.add_argument("--lemire", default="", help="lo..hi: also interpret the Eisel-Lemire constructor for exponents in this range")
     ap.add_argument("--neg", default="sym", choices=["sym", "false"], help="sign flag symbolic (default) or fixed to false")
     ap.add_argument("--trunc", action="store_true", help="the trunc flag is true: w >= 10^16 is a truncated significand, the result must be the rounding of w*10^e and of (w+1)*10^e")
+    ap.add_argument("--skip", default="", help="comma separated exponents to leave out (stated in the harness bound)")
     ap.add_argument("--both", action="store_true", help="ask both solvers on every rounding query and compare")
     ap.add_argument("--exps", default="", help="comma separated list instead of emin..emax")
     a = ap.parse_args()
@@ -512,6 +513,8 @@ def main():
     mir_path = os.path.join(a.scratch, "sonic-number.mir")
     open(mir_path, "w").write(mir)
     exps = [int(x) for x in a.exps.split(',')] if a.exps else list(range(a.emin, a.emax + 1))
+    if a.skip:
+        exps = [e for e in exps if e not in [int(x) for x in a.skip.split(',')]]
     chunks = [exps[i::a.jobs] for i in range(a.jobs)]
     interpret = a.interpret.split(",")
     lem = [int(x) for x in a.lemire.split("..")] if a.lemire else None
